@@ -315,8 +315,10 @@ func scenLoad(o *hlib.Out, rng *hlib.Rng, closers int) {
 	time.Sleep(time.Duration(20+rng.Intn(40)) * time.Millisecond)
 	inflightAtClose = atomic.LoadInt64(&started) - atomic.LoadInt64(&finished)
 	res := make(chan bool, closers)
+	startClose := make(chan struct{})
 	for i := 0; i < closers; i++ {
 		go func() {
+			<-startClose
 			done := make(chan struct{})
 			go func() { e.safeClose(); close(done) }()
 			select {
@@ -327,6 +329,7 @@ func scenLoad(o *hlib.Out, rng *hlib.Rng, closers int) {
 			}
 		}()
 	}
+	close(startClose)
 	okAll := true
 	for i := 0; i < closers; i++ {
 		if !<-res {
@@ -470,7 +473,18 @@ func scenReconnect(o *hlib.Out, phase string) {
 	var held []func()
 	var hmu sync.Mutex
 	inSetup := make(chan struct{}, 8)
-	if phase == "setup" {
+	if phase == "register" {
+		for _, nd := range e.nodes {
+			nd := nd
+			nd.AddRule(node.Rule{Match: node.MatchOp(node.OpRegister), Do: func(c *node.ServerConn, req *node.Request) {
+				// the new control connection's REGISTER (last step of setupConn): answered when the harness says so
+				hmu.Lock()
+				held = append(held, func() { nd.Default(c, req) })
+				hmu.Unlock()
+				inSetup <- struct{}{}
+			}})
+		}
+	} else if phase == "setup" {
 		for _, nd := range e.nodes {
 			nd := nd
 			nd.AddRule(node.Rule{Match: node.MatchStatement("system.local", node.OpQuery), Do: func(c *node.ServerConn, req *node.Request) {
@@ -489,7 +503,7 @@ func scenReconnect(o *hlib.Out, phase string) {
 	}
 	ctrl.Close() // the control connection is lost
 	inFlight := false
-	if phase == "setup" {
+	if phase == "setup" || phase == "register" {
 		select {
 		case <-inSetup:
 			inFlight = true
@@ -505,7 +519,7 @@ func scenReconnect(o *hlib.Out, phase string) {
 	e.info["reconnect_in_flight"] = inFlight
 	ok := e.closeWatch(10 * time.Second)
 	// now let the reconnect go on
-	if phase == "setup" {
+	if phase == "setup" || phase == "register" {
 		hmu.Lock()
 		hs := held
 		hmu.Unlock()
@@ -607,6 +621,79 @@ func scenInitFails(o *hlib.Out) {
 	emit(o, "session-init-fails", true, "", e.viol, e.info)
 }
 
+// S9: a host is added (ring refresh discovers it) after Session.Close has closed the pools but
+// before it has finished: Close is held inside controlConn.close because the control connection's
+// heartbeat goroutine is waiting for an OPTIONS answer.
+func scenAddHostDuringClose(o *hlib.Out) {
+	e, err := newSessEnv("add-host-during-close", 2, 1, nil)
+	if err != nil {
+		e.v("harness", "", "NewSession: %v", err)
+		emit(o, "session-add-host", false, "", e.viol, e.info)
+		e.done()
+		return
+	}
+	defer e.done()
+	var heldOptions int32
+	for _, nd := range e.nodes {
+		nd := nd
+		nd.AddRule(node.Rule{Match: node.MatchOp(node.OpOptions), Do: func(c *node.ServerConn, req *node.Request) {
+			if len(c.Registered()) > 0 {
+				atomic.AddInt32(&heldOptions, 1) // the control connection's heartbeat: never answered
+				return
+			}
+			nd.Default(c, req)
+		}})
+	}
+	dl := time.Now().Add(3 * time.Second)
+	for atomic.LoadInt32(&heldOptions) == 0 && time.Now().Before(dl) {
+		time.Sleep(time.Millisecond)
+	}
+	if atomic.LoadInt32(&heldOptions) == 0 {
+		e.v("harness", "", "the control connection sent no heartbeat within 3 s")
+		emit(o, "session-add-host", false, "", e.viol, e.info)
+		return
+	}
+	third := e.net.AddNode("10.0.1.3:9042")
+	cdone := make(chan struct{})
+	go func() { e.safeClose(); close(cdone) }()
+	// pools closed: only the control connection is left open
+	e.net.WaitFor(2*time.Second, func() bool { n, _ := openClientEnds(e.net); return n <= 1 })
+	open0, _ := openClientEnds(e.net)
+	e.info["open_while_close_blocked"] = open0
+	// a second Close that overlaps the first (which is still inside controlConn.close) returns at once
+	c2 := make(chan struct{})
+	go func() { e.safeClose(); close(c2) }()
+	select {
+	case <-c2:
+	case <-time.After(3 * time.Second):
+		e.v("second-close-blocks", "", "a second Close overlapping a Close in progress did not return within 3 s")
+	}
+	select {
+	case <-cdone:
+		e.info["first_close_still_running"] = false
+	default:
+		e.info["first_close_still_running"] = true
+	}
+	rdone := make(chan error, 1)
+	go func() { rdone <- gocql.VerifC17RefreshRing(e.s) }()
+	e.net.WaitFor(time.Second, func() bool { return third.TotalConns() > 0 })
+	e.info["conns_to_new_host"] = third.TotalConns()
+	select {
+	case <-cdone:
+	case <-time.After(10 * time.Second):
+		e.v("close-never-returns", "", "Close (held behind the control heartbeat) did not return within 10 s")
+		emit(o, "session-add-host", true, "", e.viol, e.info)
+		return
+	}
+	select {
+	case <-rdone:
+	case <-time.After(5 * time.Second):
+		e.v("refresh-never-returns", "", "refreshRing during Close did not return within 5 s")
+	}
+	e.afterClose()
+	emit(o, "session-add-host", true, "", e.viol, e.info)
+}
+
 func runSessions(o *hlib.Out) {
 	rng := o.Rng
 	reps := 1
@@ -626,8 +713,10 @@ func runSessions(o *hlib.Out) {
 		scenRefresh(o, rng)
 		scenReconnect(o, "dial")
 		scenReconnect(o, "setup")
+		scenReconnect(o, "register")
 		scenEvents(o, rng)
 		scenInitFails(o)
+		scenAddHostDuringClose(o)
 	}
 	hangs, trials := 0, 5*reps
 	for t := 0; t < trials; t++ {
